@@ -138,11 +138,12 @@ fn direct(rng: &mut Rng, out: &mut UnitResult, n: u64) {
 }
 
 fn gen_project(rng: &mut Rng) -> Project {
-    let codepage = *rng.pick(&[1252u16, 1252, 1251, 932, 65001]);
+    let codepage = *rng.pick(&[1252u16, 1252, 1251, 932, 65001, 437]);
     let n = 1 + rng.usize(6);
     let names: Vec<String> = match codepage {
         1251 => vec!["Module1", "Модуль2", "ЭтаКнига", "Лист1", "Sheet2", "Класс1", "M7"],
         932 => vec!["Module1", "モジュール2", "ThisWorkbook", "Sheet1", "クラス1", "M6", "M7"],
+        437 => vec!["Module1", "Module2", "ThisWorkbook", "Sheet1", "Class1", "M6", "M7"],
         // "Project" / "workbook": module streams whose names differ only in case from the root
         // PROJECT stream and from the Workbook stream of an xls container
         _ => vec!["Module1", "Modül2", "Project", "Sheet1", "workbook", "Módulo 6", "M7"],
@@ -170,7 +171,15 @@ fn gen_project(rng: &mut Rng) -> Project {
     Project { codepage, modules, references, compat_version: rng.bool() }
 }
 
+/// code page 437 (IBM PC): not among the encodings calamine can decode
+const CP437_HIGH: &str = "ÇüéâäàåçêëèïîìÄÅÉæÆôöòûùÿÖÜ¢£¥₧ƒáíóúñÑªº¿⌐¬½¼¡«»░▒▓│┤╡╢╖╕╣║╗╝╜╛┐└┴┬├─┼╞╟╚╔╩╦╠═╬╧╨╤╥╙╘╒╓╫╪┘┌█▄▌▐▀αßΓπΣσµτΦΘΩδ∞φε∩≡±≥≤⌠⌡÷≈°∙·√ⁿ²■\u{a0}";
+
 fn decode_cp(bytes: &[u8], codepage: u16) -> String {
+    if codepage == 437 {
+        let high: Vec<char> = CP437_HIGH.chars().collect();
+        assert_eq!(high.len(), 128, "cp437 table");
+        return bytes.iter().map(|b| if *b < 0x80 { *b as char } else { high[(*b - 0x80) as usize] }).collect();
+    }
     let enc = match codepage {
         1251 => encoding_rs::WINDOWS_1251,
         932 => encoding_rs::SHIFT_JIS,
@@ -190,6 +199,11 @@ fn check_project(p: &Project, vba: Option<Result<calamine::vba::VbaProject, Stri
     };
     let v = match vba {
         Some(Ok(v)) => v,
+        // a code page the reader cannot decode: refusing the project is fine, wrong text is not
+        Some(Err(_)) if p.codepage == 437 => {
+            out.feat("unsupported_codepage:error");
+            return;
+        }
         Some(Err(e)) => {
             fail(out, format!("c18|project|error|{}", container), json!(e));
             return;
@@ -258,7 +272,7 @@ impl Prop for C18 {
         tier.pick(16, 160)
     }
     fn mandatory(&self, _t: Tier) -> Vec<String> {
-        let mut v: Vec<String> = ["strategy:Literal", "strategy:Greedy", "strategy:Random", "strategy:Raw", "strategy:Mixed", "chunks:0", "chunks:1", "chunks:>1", "overlapping_copy", "max_length_copy", "raw_chunk", "chunk_end_on_full_flag_group", "container:xlsm", "container:xlsb", "container:xls", "stream_names:rotated", "cp:1252", "cp:1251", "cp:932", "cp:65001"]
+        let mut v: Vec<String> = ["strategy:Literal", "strategy:Greedy", "strategy:Random", "strategy:Raw", "strategy:Mixed", "chunks:0", "chunks:1", "chunks:>1", "overlapping_copy", "max_length_copy", "raw_chunk", "chunk_end_on_full_flag_group", "container:xlsm", "container:xlsb", "container:xls", "stream_names:rotated", "cp:437", "cp:1252", "cp:1251", "cp:932", "cp:65001"]
             .iter().map(|s| s.to_string()).collect();
         for b in 4..=12 {
             v.push(format!("copy_token_offset_bits:{}", b));
